@@ -68,7 +68,7 @@ def run(ctx):
         base = gt.Base(ctx.rng, depth=ctx.rng.choice([1, 2, 2]))
         c = base.case()
         cases.append(("gen:%d:base" % i, c.text(), "m.emb", None, c, {}))
-        for v in gt.c14_cases(base, ctx.rng):
+        for v in gt.c14_cases(base, ctx.rng) + gt.backend_cases(base, ctx.rng, n=(49 if ctx.thorough() else 24)):
             cases.append(("gen:%d:%s" % (i, v.rule), v.text(), "m.emb", None, v, {}))
     for k, v in enumerate(gt.default_scope_cases(ctx.rng, n=(24 if ctx.thorough() else 9))):
         cases.append(("scope:%d:%s" % (k, v.rule), v.text(), "m.emb", None, v, {}))
@@ -136,7 +136,16 @@ def run(ctx):
             viol(crash_key(full_detail), "compiler raised %s in %s on %s" % (full_detail["exception"], full_detail["function"], label), replay)
         elif want_accept and full_st != "ok":
             msg = re.sub(r"'[^']*'|\d+", "_", full_detail[0][2].split("\n")[0])[:80] if full_detail else "?"
-            viol("realisable-module-rejected:%s" % msg, "%s rejected: %s" % (label, full_detail[:2]), replay)
+            mutated = text.split("\n")[case.line - 1] if case is not None and case.line and 0 < case.line <= text.count("\n") else ""
+            if "back-end" in (rule or "") and "$default byte_order" in mutated and "(" in mutated and msg.startswith("Attribute _ required"):
+                key = "foreign-back-end-default-shadows-front-end-default"
+            else:
+                key = "realisable-module-rejected:%s" % msg
+            viol(key, "%s rejected: %s" % (label, full_detail[:2]), replay)
+            if key == "foreign-back-end-default-shadows-front-end-default":
+                # reported with the module; the model follows the reference here, so no agreement is expected
+                ctx.count("skipped:known-divergence-on-foreign-default")
+                continue
         elif want_reject and full_st == "ok":
             viol(gt.C14_KNOWN.get(rule, "layout-accepts:%s" % rule), "unrealisable module accepted (rule %s, line %s)" % (rule, case.line if case else "?"), replay)
         elif want_reject and case is not None:
@@ -166,14 +175,14 @@ def run(ctx):
         verdict = (lv == "accept")
         bs = an.get("borders")
         ctx.count("effective-byte-orders-compared" if bs else "effective-byte-orders-not-available")
-        coq_cases.append((an["coq"], "(LExpect %s true %s)" % ("true" if verdict else "false", "(Some %s)" % bs if bs else "None"),
+        coq_cases.append((an["coq"], "(EExpect %s true %s)" % ("true" if verdict else "false", "(Some %s)" % bs if bs else "None"),
                           dict(label=label, text=text, rule=rule, an=an, case=case)))
         if case is not None and lv in ("accept", "reject") and verdict != case.doc_realisable and full_st != "crash":
             pass   # already reported above as a property violation with the concrete module
 
-    r = fw.CoqCases(ctx, "layout", hdr, "(run_layout3 T_run)", "lout_agrees", "module", "lout", shard=20)
+    r = fw.CoqCases(ctx, "layout", hdr, "(run_layout4 T_run)", "eout_agrees", "module", "eout", shard=20)
     bad = r.run(coq_cases) if coq_cases else []
-    ctx.obligation("correspondence: %d modules: check_layout(T_run) = compiler's verdict on the modelled rules, effective_border of every field = byte_order attribute after normalisation" % len(coq_cases), not bad)
+    ctx.obligation("correspondence: %d modules: check_layout(T_run) = compiler's verdict on the modelled rules, effective byte order of every field, maximum_bits/is_signed of every enum and fixed size of every structure = the unqualified attributes after normalisation" % len(coq_cases), not bad)
     shown = 0
     for idx, out in bad:
         a, b, obj = coq_cases[idx]
@@ -183,11 +192,11 @@ def run(ctx):
         if case is not None and ((case.doc_realisable and full_st != "ok") or (not case.doc_realisable and full_st != "errors")):
             continue
         vtxt = "true" if obj["an"]["layout"][0] == "accept" else "false"
-        if obj["an"].get("borders") and ("LModel %s true" % vtxt) in " ".join(out.split()):
+        if obj["an"].get("borders") and ("EModel %s true" % vtxt) in " ".join(out.split()):
             # same verdict, different byte orders: by theorem defaults_inherited the model's value IS the nearest
             # enclosing $default, so the front end gave some field another byte order: a concrete failing module
-            ctx.violation("byte-order-not-nearest-enclosing-default",
-                          "%s: byte_order attributes after normalisation differ from own / nearest enclosing $default / Null" % obj["label"],
+            ctx.violation("effective-attributes-differ-from-documented",
+                          "%s: the unqualified byte_order / maximum_bits / is_signed / fixed_size_in_bits after normalisation differ from what the reference gives (own attribute, nearest enclosing $default, Null; 64 / any negative value; largest field end)" % obj["label"],
                           dict(kind="module", module=obj["text"], rule=obj["rule"], theorem="defaults_inherited",
                                front_end_byte_orders=obj["an"]["borders"], model_outputs=out[:3000]), found_input=True)
             shown += 1
